@@ -41,6 +41,17 @@ CLAIMED = {
              "settings dict with the option overridden, passed through the real __init__; CrossHair+z3 trusted",
         ref="DESIGN.md section 5 C19",
     ),
+    "C20": dict(
+        text="Every functional graph on N<=3 (quick) / N<=4 (thorough) nodes for 9 cycle shapes (USE, EXTENDS in one file and "
+             "across files, submodule ancestry, pointer links, ASSOCIATE, procedure pointers, type-bound/GENERIC bindings, "
+             "INCLUDE): the successor indices are symbolic ints forked by the solver (CrossHair), the graph is rendered to "
+             "source and run through the real server (didOpen -> parse/link/diagnose, documentSymbol, all 9 positional "
+             "requests at both ends of every identifier) under a wall-clock guard; any error response, error message, hang "
+             "or out-of-document range is a counterexample. The indexed run itself is concrete per path (NoTracing): the "
+             "solver enumerates the bounded graph space, it does not reason about the parser.",
+        note="disk replaced by an in-memory table; one source spelling per link kind; default recursion limit; 20 s budget per graph",
+        ref="DESIGN.md section 5 C20",
+    ),
 }
 
 NOT_APPLICABLE = {
